@@ -76,13 +76,15 @@ ASSUMPTIONS = [
     "matmul-free plan of _parse_einsum_single is executed by a harness copy of the three application steps "
     "of _einsum_single)",
     "size-1 broadcasting of one label against a larger size is outside the property's domain and is not "
-    "generated; negative tensordot axes are probed for information only (no verdict)",
+    "generated; negative tensordot axes are legal numpy axes and are decided (monitor negative_axes) since the repair of "
+    "the second-operand case in /repo",
 ]
 REQUIRED_MONITORS = [
     "einsum2_value",
     "einsum1_value",
     "plan1_value",
     "tensordot_value",
+    "negative_axes",
     "exact_int",
     "ref_vs_numpy",
     "planner_cold",
@@ -396,7 +398,15 @@ def _axes_arg(case):
         return int(case["axes"])
     if form == "npint":
         return np.int64(case["axes"])
-    return (tuple(int(i) for i in case["axes"][0]), tuple(int(i) for i in case["axes"][1]))
+    axa = [int(i) for i in case["axes"][0]]
+    axb = [int(i) for i in case["axes"][1]]
+    neg = case.get("neg")
+    if neg:
+        # the same axes, some of them spelt negative (counted from the end) as numpy allows
+        ra, rb = len(case["shapes"][0]), len(case["shapes"][1])
+        axa = [i - ra if f else i for i, f in zip(axa, neg[0])]
+        axb = [i - rb if f else i for i, f in zip(axb, neg[1])]
+    return (tuple(axa), tuple(axb))
 
 
 def reference(rep, case, arrays):
@@ -478,6 +488,8 @@ def execute(rep, case):
                 rep.count("planner_warm", ex)
 
     rep.mon(f"{ex}_value")
+    if case.get("neg"):
+        rep.mon("negative_axes")
     if mode == "same_object":
         rep.mon("aliased_operands")
     elif mode != "independent":
@@ -596,6 +608,15 @@ def _key_cases(space, desc, case_seed, second_kind):
         al2 = [dict(c, operands="same_object") for c in second]
         first = al1 + first if rng.random() < 0.5 else first + al1
         second = second + al2
+    if space == "tensordot" and form == "tuple" and len(axes[0]) >= 1:
+        # "for every axes specification": one more execution with a seeded subset of the axes (of either
+        # operand, at least one) spelt negative
+        n = len(axes[0])
+        while True:
+            neg = [[rng.random() < 0.5 for _ in range(n)], [rng.random() < 0.5 for _ in range(n)]]
+            if any(neg[0]) or any(neg[1]):
+                break
+        second = second + [dict(b, kind=rng.choice(["int", second_kind]), case_seed=case_seed, neg=neg) for b in base]
     if rng.random() < VIEW_FRACTION:
         modes = ["noncontig"] if any(len(s) for s in shapes) else []
         if len(shapes) == 2:
